@@ -853,6 +853,19 @@ func ruleReasonTable(r *Run, rule string) {
 			_ = rv
 		}
 	}
+	// the same table written as data: `T[i]` where T is a variable initialised with a literal whose k-th
+	// element carries the reason of element k
+	if len(seen) == 0 {
+		for k, got := range reasonLookupTable(r, ex) {
+			seen[k] = true
+			if k >= len(groups) {
+				r.Fail(rule, "examineChecks:case:"+itoa(k), ex.Decl.Pos(), "the reason table has an entry %d but the examined array has %d elements", k, len(groups))
+				continue
+			}
+			g := groups[k]
+			r.Check(rule, "examineChecks:case:"+itoa(k)+":"+g, ex.Decl.Pos(), got == reasonForGroup[g], "element %d of the examined array is Plan.%s but entry %d of the reason table is %s (expected %s): the failure reason would name the wrong stage", k, g, k, orOK(got, "nothing"), reasonForGroup[g])
+		}
+	}
 	for i := range groups {
 		if !seen[i] {
 			r.Fail(rule, "examineChecks:case:"+itoa(i)+":"+groups[i], ex.Decl.Pos(), "no case assigns a reason for element %d (Plan.%s)", i, groups[i])
@@ -1113,4 +1126,110 @@ func privateToAny(r *Run, key, pkg string, names map[string]bool) bool {
 		}
 	}
 	return false
+}
+
+// reasonLookupTable: if fn indexes, with the key of its loop over the examined array, a variable whose
+// initialiser is a composite literal of elements carrying a workflow.FailureReason, the reason per index.
+func reasonLookupTable(r *Run, fn *Func) map[int]string {
+	info := fn.Pkg.TypesInfo
+	out := map[int]string{}
+	ast.Inspect(fn.Decl.Body, func(n ast.Node) bool {
+		ie, ok := n.(*ast.IndexExpr)
+		if !ok || len(out) > 0 {
+			return true
+		}
+		// indexed by the key of an enclosing range loop
+		keyed := false
+		for _, rs := range EnclosingLoops(fn.Decl.Body, ie.Pos()) {
+			if rs.Key != nil && SameObj(info, rs.Key, ie.Index) {
+				keyed = true
+			}
+		}
+		v, isVar := ObjOf(info, ie.X).(*types.Var)
+		if !keyed || !isVar {
+			return true
+		}
+		lit := initialiserOf(r.P, v)
+		if lit == nil {
+			return true
+		}
+		for k, el := range lit.Elts {
+			if kv, ok := el.(*ast.KeyValueExpr); ok {
+				if idx, isC := ConstInt(info, kv.Key); isC {
+					k = int(idx)
+				}
+				el = kv.Value
+			}
+			ecl, ok := ast.Unparen(el).(*ast.CompositeLit)
+			if !ok {
+				continue
+			}
+			for _, f := range ecl.Elts {
+				val := f
+				if kv, ok := f.(*ast.KeyValueExpr); ok {
+					val = kv.Value
+				}
+				if tv, ok := info.Types[val]; ok && ShortType(tv.Type) == "workflow.FailureReason" {
+					out[k] = ValueKey(info, val)
+				}
+			}
+		}
+		return true
+	})
+	return out
+}
+
+// initialiserOf: the composite literal a variable is initialised with (package level or local), if it is never assigned again.
+func initialiserOf(p *Prog, v *types.Var) *ast.CompositeLit {
+	var lit *ast.CompositeLit
+	writes := 0
+	for _, pkg := range p.All {
+		if pkg.Types != v.Pkg() {
+			continue
+		}
+		info := pkg.TypesInfo
+		for _, f := range pkg.Syntax {
+			ast.Inspect(f, func(n ast.Node) bool {
+				switch x := n.(type) {
+				case *ast.ValueSpec:
+					for i, nm := range x.Names {
+						if info.Defs[nm] == v && i < len(x.Values) {
+							if cl, ok := ast.Unparen(x.Values[i]).(*ast.CompositeLit); ok {
+								lit = cl
+							}
+						}
+					}
+				case *ast.AssignStmt:
+					for i, l := range x.Lhs {
+						root := ast.Unparen(l)
+						for {
+							if ie, ok := root.(*ast.IndexExpr); ok {
+								root = ast.Unparen(ie.X)
+								continue
+							}
+							if se, ok := root.(*ast.SelectorExpr); ok {
+								root = ast.Unparen(se.X)
+								continue
+							}
+							break
+						}
+						if id, ok := root.(*ast.Ident); ok && (info.Uses[id] == v || info.Defs[id] == v) {
+							if x.Tok == token.DEFINE && info.Defs[id] == v && i < len(x.Rhs) {
+								if cl, ok := ast.Unparen(x.Rhs[i]).(*ast.CompositeLit); ok {
+									lit = cl
+									continue
+								}
+							}
+							writes++
+						}
+					}
+				}
+				return true
+			})
+		}
+	}
+	if writes > 0 {
+		return nil
+	}
+	return lit
 }
